@@ -52,6 +52,8 @@ type config struct {
 	RecvCap int `json:"recv_capacity,omitempty"`
 }
 
+var faultMu sync.Mutex
+
 var opKinds = []string{"flip", "drop", "dup", "swap", "garbage", "replay", "cut"}
 
 func generate(seed uint64, prop string) simrt.Case {
@@ -189,7 +191,9 @@ func relayOps(d *simnet.Dir, ops []simrt.Action, faults map[string]int) func() (
 			if first < 0 {
 				first = i
 			}
+			faultMu.Lock() // the two directions of a link run on goroutines of their own
 			faults["relay_"+op.S]++
+			faultMu.Unlock()
 			switch op.S {
 			case "flip":
 				u := append([]byte{}, unit...)
